@@ -15,8 +15,9 @@ From Coq Require Import List String.
 {extra}From VQ.Gen Require Import {name}.
 Import ListNotations.
 Open Scope string_scope.
-Lemma pin_{name} : {name} =
+Definition pinned_{name} : {ty} :=
   {body}.
+Lemma pin_{name} : {name} = pinned_{name}.
 Proof. reflexivity. Qed.
 '''
     open(os.path.join(COQ, 'Glue', f'Pin_{name}.v'), 'w').write(txt)
